@@ -125,6 +125,58 @@ pub fn load(dir: &Path, tier: Tier) -> Result<Catalogue, String> {
         }
     }
 
+    // one construct with many repeated elements (arguments, operands, statements)
+    for (k, (head, unit, tail)) in [
+        ("%m(", "%r(x)=c,", ")"),
+        ("%m(", "%r(x)=c,", "z)"),
+        ("%m(", "a=1,", "b)"),
+        ("%m(", "&v=1,", ")"),
+        ("%m(", "%r(x),", ")"),
+        ("%m(", "%r,", ")"),
+        ("%m(", "(a),", ")"),
+        ("%m(", "'s',", "\"t\")"),
+        ("%m(", "a b,", ")"),
+        ("%m(", "é=ü,", ")"),
+        ("%m(", "a /*c*/ = 1 ,", ")"),
+        ("%macro m(", "a=1,", "b);%mend;"),
+        ("%sysfunc(cats(", "a,", "b))"),
+        ("%eval(", "1+", "1)"),
+        ("%sysevalf(", "1.5*", "2)"),
+        ("%let a=", "&b", ";"),
+        ("%let a=", "&&b&c", ";"),
+        ("%put ", "%r(x) ", ";"),
+        ("%if ", "1 and ", "1 %then x;"),
+        ("data;", "x=1;", "run;"),
+        ("x=", "'a'||", "'b';"),
+        ("%local ", "a ", ";"),
+        ("%scan(", "a ", ",1)"),
+        ("%str(", "%%", ")"),
+        ("%nrstr(", "&a%(", ")"),
+        ("\"", "&a ", "\""),
+        ("\"", "%r(x) ", "\""),
+        ("'", "''", "'"),
+        ("\"", "\"\"", "\""),
+        ("", "%r(x)", ""),
+        ("", "%r ", "x"),
+        ("", "&a.", ""),
+        ("", "a:", ""),
+        ("", "%a:", ""),
+        ("", "%do;%end;", ""),
+        ("", "/**/", ""),
+        ("", "%*;", ""),
+        ("", "*;", ""),
+    ]
+    .iter()
+    .enumerate()
+    {
+        for reps in [2usize, 5, 16, 17, 18, 33, 41, 70] {
+            let t = format!("{}{}{}", head, unit.repeat(reps), tail);
+            if t.len() <= 1200 && push(&mut sources, format!("r{k:02}x{reps}"), t) {
+                n_nested += 1;
+            }
+        }
+    }
+
     // base sources with some ASCII letters/digits replaced by multi-byte characters
     let mut rng = Rng::new(UNI_SEED);
     let mut n_uni = 0;
@@ -252,7 +304,7 @@ pub fn load(dir: &Path, tier: Tier) -> Result<Catalogue, String> {
         classes: vec![
             ("base+curated", n_first),
             ("dense", n_dense),
-            ("nested", n_nested),
+            ("nested+repeated", n_nested),
             ("unicodified", n_uni),
             ("prefixes", n_prefix),
             ("splices", n_splice),
